@@ -66,7 +66,7 @@ def sameKinds (xs ys : List Nat) : Bool := xs.length == ys.length && (xs.zip ys)
     same version gates; a member is an `Option` exactly when it is version-gated; the row view and the
     mutable→immutable conversion map every member to itself; the Arrow import reads child `k` into member `k`;
     the lazy-validity idiom is present in every function that needs it -/
-def structOK (isEnd hasValidity : Bool) (v : SViews) : Bool :=
+def structCoreOK (isEnd hasValidity : Bool) (v : SViews) : Bool :=
   let N := v.defMut.map (·.name)
   let K := v.defMut.map (·.kind)
   let O := v.defMut.map (·.opt)
@@ -74,7 +74,7 @@ def structOK (isEnd hasValidity : Bool) (v : SViews) : Bool :=
   let sameNK (l : List VEnt) := l.map (·.name) == N && sameKinds (l.map (·.kind)) K
   let idMap (l : List (List Nat × List Nat × Bool)) := l.map (·.1) == N && l.map (·.2.1) == N && l.map (·.2.2) == O
   -- definitions
-  sameNK v.defImm && v.defImm.map (·.opt) == O && sameNK v.defTr && v.defTr.map (·.opt) == O &&
+  sameNK v.defImm && v.defImm.map (·.opt) == O &&
   -- construction / mutation
   sameNK v.withCapacity && O == G.map (·.isSome) && chainsOK v.withCapacity &&
   sameNK v.pushNull && gatesOf v.pushNull == G && chainsOK v.pushNull &&
@@ -82,21 +82,43 @@ def structOK (isEnd hasValidity : Bool) (v : SViews) : Bool :=
   -- serialisation
   sameNK v.write && gatesOf v.write == G && chainsOK v.write &&
   sameKinds (v.size.map (·.kind)) K && gatesOf v.size == G && chainsOK v.size &&
-  -- row view, conversion
-  idMap v.trMut && idMap v.trImm && idMap v.fromMut &&
+  -- mutable → immutable conversion, length
+  idMap v.fromMut &&
   (if isEnd then v.lenSpecialEnd else (!v.lenSpecialEnd && some v.lenField == N.head? && G.head? == some none)) &&
-  -- Arrow
+  -- validity
+  (if hasValidity then
+     v.vDefMut && v.vDefImm && v.vFromMut && v.vPushNull && v.vReadPush &&
+     (if isEnd then v.vWithCapacity == (1, 3, 7) else v.vWithCapacity.1 == 0)
+   else  -- tuple structs (`StateFlags`, `ItemMisc`) have no validity member anywhere
+     !v.vDefMut && !v.vDefImm && !v.vFromMut && !v.vPushNull && !v.vReadPush && v.vWithCapacity.1 == 2)
+
+/-- the row view (`transpose_one` of both representations and the row struct) maps every member to itself -/
+def structRowOK (v : SViews) : Bool :=
+  let N := v.defMut.map (·.name)
+  let K := v.defMut.map (·.kind)
+  let O := v.defMut.map (·.opt)
+  let sameNK (l : List VEnt) := l.map (·.name) == N && sameKinds (l.map (·.kind)) K
+  let idMap (l : List (List Nat × List Nat × Bool)) := l.map (·.1) == N && l.map (·.2.1) == N && l.map (·.2.2) == O
+  sameNK v.defTr && v.defTr.map (·.opt) == O && idMap v.trMut && idMap v.trImm && !v.vDefTr
+
+/-- the Arrow side (`data_type`, `into_struct_array`, `from_struct_array`) lists the members in definition order with the
+    same types and gates, and reads child `k` into member `k` -/
+def structArrowOK (hasValidity : Bool) (v : SViews) : Bool :=
+  let N := v.defMut.map (·.name)
+  let K := v.defMut.map (·.kind)
+  let O := v.defMut.map (·.opt)
+  let G := gatesOf v.withCapacity
+  let sameNK (l : List VEnt) := l.map (·.name) == N && sameKinds (l.map (·.kind)) K
   sameNK v.arrowFields && gatesOf v.arrowFields == G && chainsOK v.arrowFields &&
   sameNK v.arrowInto && gatesOf v.arrowInto == G && chainsOK v.arrowInto &&
   v.arrowFrom.map (·.1) == N && v.arrowFrom.map (·.2.1) == List.range N.length &&
   sameKinds (v.arrowFrom.map (·.2.2.1)) K && v.arrowFrom.map (·.2.2.2) == O &&
-  -- validity
-  !v.vDefTr &&
-  (if hasValidity then
-     v.vDefMut && v.vDefImm && v.vFromMut && v.vPushNull && v.vReadPush && v.vInto && v.vFrom &&
-     (if isEnd then v.vWithCapacity == (1, 3, 7) else v.vWithCapacity.1 == 0)
-   else  -- tuple structs (`StateFlags`, `ItemMisc`) have no validity member anywhere
-     !v.vDefMut && !v.vDefImm && !v.vFromMut && !v.vPushNull && !v.vReadPush && !v.vInto && !v.vFrom && v.vWithCapacity.1 == 2)
+  (if hasValidity then v.vInto && v.vFrom else !v.vInto && !v.vFrom)
+
+/-- everything at once.  The three parts are decided separately (`PremisesCore`, `PremisesRow`, `PremisesArrow`) so that a
+    property depends only on the generated functions it is about. -/
+def structOK (isEnd hasValidity : Bool) (v : SViews) : Bool :=
+  structCoreOK isEnd hasValidity v && structRowOK v && structArrowOK hasValidity v
 
 end Peppi
 
